@@ -235,6 +235,7 @@ inductive Ev
   | fault                                 -- run-time fault (index out of range, nil map write, division by zero)
   | recover                               -- `prt(recover())`
   | ret                                   -- `return`
+  | entryEnd                              -- end of the function's entry block reached (first branching statement)
   | set (up : Bool) (v : Var) (a : Arg)   -- `v = a`   (`up`: variable of the function that created this closure)
   | add (up : Bool) (v : Var) (a : Arg)   -- `v += a`
   | show (up : Bool) (v : Var)            -- `println("V", code, v)`
@@ -467,6 +468,13 @@ def runBody (cfg : Cfg) (callFn : CallFn) (f : Fn) (upId : Option Nat) :
         | none => st.emit ⟨.Rnil, []⟩
       runBody cfg callFn f upId rest a st
     | .ret => (a, st, .normal)
+    | .entryEnd =>
+      -- getDefer: unless the first compiled defer is `DeferAlways` (then the frame is set up in place, see `.defer`),
+      -- `deferInitBuilder` appends `initDeferState` to the END of block 0: code of the entry block runs without a frame
+      let (a, st) := match f.stmts with
+        | [] => (a, st)
+        | s :: _ => if s.kind != .always && a.fr.isNone then setupFrame a st else (a, st)
+      runBody cfg callFn f upId rest a st
     | .set up v arg =>
       let t := target up upId a
       runBody cfg callFn f upId rest a (st.setLoc t ((st.loc t).put v (evalArg l arg)))
@@ -521,10 +529,6 @@ def execFn (cfg : Cfg) (p : Prog) : Nat → Nat → List Int → Option Nat → 
       let st := { st with store := st.store ++ [(⟨0, 0, args⟩ : Loc)] }
       let st := st.emit ⟨.F, (g : Int) :: args⟩
       let a : Act := ⟨id, none, none, 0, []⟩
-      -- getDefer: the frame is set up at function entry unless the first compiled defer is `DeferAlways`
-      let (a, st) := match f.stmts with
-        | [] => (a, st)
-        | s :: _ => if s.kind == .always then (a, st) else setupFrame a st
       let (a, st, be) := runBody cfg (execFn cfg p fuel) f up f.body a st
       finish cfg (execFn cfg p fuel) f a st be
 
